@@ -34,7 +34,22 @@ A = {"a": 1, "s": "x: y # z", "n": {"k": [1, 2.5, True, None]}}
 B = {"a": 2, "s": "second", "u": "ü€"}
 C = {"c": 3}
 X = {"other": "manager"}
-VERSIONS = {"A": A, "B": B, "C": C, "X": X}
+# E1 == E2 for Python's ==, but they are different YAML documents (int / bool / float)
+E1 = {"flag": 1, "zero": 0, "n": 1}
+E2 = {"flag": True, "zero": False, "n": 1.0}
+VERSIONS = {"A": A, "B": B, "C": C, "X": X, "E1": E1, "E2": E2}
+
+
+def teq(a, b):
+    """Equality that also compares types (1 is not True is not 1.0): what 'exactly as last saved' means for YAML."""
+    if type(a) is not type(b):
+        return False
+    if isinstance(a, dict):
+        return a.keys() == b.keys() and all(teq(a[k], b[k]) for k in a)
+    if isinstance(a, (list, tuple)):
+        return len(a) == len(b) and all(teq(x, y) for x, y in zip(a, b))
+    return a == b
+
 
 # scripts: (manager, op, arg)
 SCRIPTS = {
@@ -51,11 +66,21 @@ SCRIPTS = {
     "save-at-second-wakeup": [("d1", "save", "A"), ("", "sleep", 2.0), ("d1", "save", "B"), ("", "sleep", 1.0), ("d1", "save", "C"),
                               ("", "sleep", 3.0), ("", "shutdown", None)],
     "shutdown-at-wakeup": [("d1", "save", "A"), ("", "sleep", 1.0), ("", "shutdown", None)],
+    # a save whose data compares equal to what was written before but is not the same document
+    "retype": [("d1", "save", "E1"), ("", "sleep", 2.5), ("d1", "save", "E2"), ("", "sleep", 2.5), ("", "shutdown", None)],
+    "same-again": [("d1", "save", "A"), ("", "sleep", 2.5), ("d1", "save", "A"), ("", "sleep", 1.0), ("d1", "save", "B"),
+                   ("", "shutdown", None)],
     "three-saves": [("d1", "save", "A"), ("", "sleep", 1.2), ("d1", "save", "B"), ("", "sleep", 0.5), ("d1", "save", "C"),
                     ("", "sleep", 3.0), ("", "shutdown", None)],
 }
 FAULT_SCRIPT = [("d1", "save", "A"), ("", "sleep", 2.5), ("d1", "save", "B"), ("", "sleep", 3.5), ("d1", "save", "C"),
                 ("", "sleep", 3.5), ("", "shutdown", None)]
+
+
+# the save that follows a failed write carries the same data as the failed one (a periodic re-save of unchanged values)
+FAULT_SCRIPT_RESAVE = [("d1", "save", "A"), ("", "sleep", 2.5), ("d1", "save", "B"), ("", "sleep", 3.5), ("d1", "save", "B"),
+                       ("", "sleep", 3.5), ("", "shutdown", None)]
+FAULT_SCRIPTS = {"fault": FAULT_SCRIPT, "fault-resave": FAULT_SCRIPT_RESAVE}
 
 
 def parse(text):
@@ -150,8 +175,8 @@ class Execution:
                     except Exception as e:      # noqa
                         out.append(("torn-final", "%s: final file does not parse: %r" % (dmn, e)))
                         continue
-                    if got != last:
-                        older = [v for v in self.saved[dmn] if VERSIONS[v] == got]
+                    if not teq(got, last):
+                        older = [v for v in self.saved[dmn] if teq(VERSIONS[v], got)]
                         out.append(("stale-at-shutdown" if older else "wrong-content",
                                     "%s: last saved version is %s but the file holds %s" %
                                     (dmn, self.saved[dmn][-1], older[0] if older else got)))
@@ -166,7 +191,7 @@ class Execution:
                     except Exception as e:      # noqa
                         out.append(("torn", "%s: %s the file does not parse (%r)" % (dmn, where, e)))
                         continue
-                    if not any(VERSIONS[v] == got for v in self.saved[dmn]):
+                    if not any(teq(VERSIONS[v], got) for v in self.saved[dmn]):
                         out.append(("torn", "%s: %s the file holds %r, which is none of the saved versions" % (dmn, where, got)))
         self.crash_states = ncrash
         return out
@@ -317,9 +342,12 @@ def body(ctx):
     jobs = []
     for name, script in SCRIPTS.items():
         jobs.append((name, script, bound, None, True))
-    nops = count_fs_ops(FAULT_SCRIPT)
-    for k in range(nops):
-        jobs.append(("fault", FAULT_SCRIPT, 0 if quick else 1, k, True))
+    nops = 0
+    for fname, fscript in FAULT_SCRIPTS.items():
+        n = count_fs_ops(fscript)
+        nops += n
+        for k in range(n):
+            jobs.append((fname, fscript, 0 if quick else 1, k, True))
     total = {"executions": 0, "points": 0, "crash_states": 0}
     nout = 0
     capped = False
@@ -331,9 +359,9 @@ def body(ctx):
         if sample:
             ctx.sample({"script": name, "fail_at": fail_at, **sample})
         for sig, (msg, choices) in viols.items():
-            if name == "fault":
-                # after the injected failure the later save (B) has to be on disk
-                full = "fault:%s" % sig
+            if name in FAULT_SCRIPTS:
+                # after the injected failure the later save has to be on disk
+                full = "%s:%s" % (name, sig)
             else:
                 full = "%s:%s" % (sig, name)
             ctx.violation(full, "script %s%s: %s" % (name, "" if fail_at is None else " (I/O error injected at file-system operation %d)" % fail_at, msg),
@@ -345,7 +373,7 @@ def body(ctx):
     ctx.guard("crash_states", total["crash_states"])
     ctx.add(evaluations=total["executions"] + nv + nm, distinct_nontrivial=nout, schedules=total["executions"],
             scheduling_points=total["points"], crash_states_checked=total["crash_states"], preemption_bound=bound,
-            fault_positions=nops, scripts=len(SCRIPTS), capped=capped,
+            fault_positions=nops, scripts=len(SCRIPTS) + len(FAULT_SCRIPTS), capped=capped,
             rule="every schedule of the writer thread(s) against the main script with at most %d preemption(s) (scheduling "
                  "points: Event/sleep/file-system primitives and every line of data_manager.py / file_manager.py), each run "
                  "to completion under virtual time; for every schedule every prefix of the file-system operation log "
@@ -363,7 +391,7 @@ def replay(ctx, data):
     if "script" not in rp:
         print("  ", rp)
         return False
-    script = FAULT_SCRIPT if rp["script"] == "fault" else SCRIPTS[rp["script"]]
+    script = FAULT_SCRIPTS[rp["script"]] if rp["script"] in FAULT_SCRIPTS else SCRIPTS[rp["script"]]
     ex = Execution(script, rp["choices"], rp.get("fail_at")).run()
     res = ex.judge(rp["script"] != "fault" or True)
     print("  fs log:", [(o[0], o[1]) for o in ex.fs.log])
